@@ -75,7 +75,9 @@ class Init:
             point, di = index % SPACE, index // SPACE
         else:
             point, di = rng.randrange(SPACE), rng.randrange(len(DATES))
-        return {"point": point, "date": di, "vcs": rng.choice([None, None, "git"]), "ops": [{"op": "init-sequence"}]}
+        # long files: the unrelated content / the existing section sits behind many kilobytes of other tools' settings
+        return {"point": point, "date": di, "vcs": rng.choice([None, None, "git"]), "ops": [{"op": "init-sequence"}],
+                "pad": rng.choice([0, 0, 0, 0, 9000, 70000])}
 
     def run(self, case, ctx):
         layout = decode(case["point"])
@@ -104,6 +106,13 @@ class Init:
                 if kind == "section_crlf":
                     # the same section as written by an editor that uses CRLF line endings
                     files[name] = files[name].replace(b"\n", b"\r\n")
+        if case.get("pad"):
+            line = b"# " + b"other tools' settings, kept by the project for years; " * 2 + b"\n"
+            padding = line * (case["pad"] // len(line) + 1)
+            for name in CONFIGS:
+                if files.get(name):
+                    files[name] = padding + files[name]
+            ctx.probe("long_config_file")
         invoker.write_tree(d, files)
         if case.get("vcs") == "git":
             import os
